@@ -111,6 +111,10 @@ pub(crate) enum SmartString {
 
 impl SmartString {
     fn new(s: &str, kind: StringKind) -> Self {
+        #[cfg(tera_verif)]
+        if kind == StringKind::Safe {
+            crate::verif::emit(|| "{\"e\":\"mint\",\"via\":\"new\"}".to_string());
+        }
         if s.len() <= 21 {
             let mut data = [0; 21];
             data[..s.len()].copy_from_slice(s.as_bytes());
@@ -149,6 +153,8 @@ impl SmartString {
     }
 
     pub(crate) fn mark_safe(self) -> Self {
+        #[cfg(tera_verif)]
+        crate::verif::emit(|| "{\"e\":\"mint\",\"via\":\"mark\"}".to_string());
         match self {
             Self::Small { len, data, .. } => Self::Small {
                 len,
